@@ -73,11 +73,18 @@ pub fn gen_sym_world(rng: &mut Rng, idx: usize) -> SymWorld {
           text.push_str(&format!("export interface {} {{ a: string; m(): void; }}\nexport interface {} {{ b: number; (x: number): string; new (x: string): {}; [k: string]: any; }}\n", id, id, id));
           add(&mut own, &id);
         }
-        4 => {
+        4 if rng.chance(1, 2) => {
           text.push_str(&format!(
             "export namespace {} {{ export const inner = 1; const hidden = 2; export namespace Deep {{ export type T = string; export function f() {{}} }} export import alias = Deep.T; }}\n",
             id
           ));
+          add(&mut own, &id);
+        }
+        4 => {
+          // dotted namespace declarations of 2-4 segments
+          let depth = 2 + rng.below(3);
+          let segs: Vec<String> = (0..depth).map(|k| if k == 0 { id.clone() } else { format!("S{}", k) }).collect();
+          text.push_str(&format!("export namespace {} {{ export const leaf = 1; export interface I {{ a: string }} }}\n", segs.join(".")));
           add(&mut own, &id);
         }
         5 => {
@@ -320,6 +327,11 @@ pub fn child(seed: u64, idx: usize, corpus_file: Option<&str>) {
     }
   };
   let generated = corpus_file.is_none();
+  if std::env::var("DGH_DUMP_WORLD").is_ok() {
+    for m in &w.mods {
+      eprintln!("# {}\n{}", m.url, m.text);
+    }
+  }
   let analyzer = CapturingModuleAnalyzer::default();
   let graph = build(&w, &analyzer);
   let root = RootSymbol::new(&graph, &analyzer);
